@@ -7,11 +7,13 @@ import (
 	"context"
 	"encoding/json"
 	"fmt"
+	"math"
 	"os"
 	"os/exec"
 	"path/filepath"
 	"regexp"
 	"sort"
+	"strconv"
 	"strings"
 	"syscall"
 	"time"
@@ -60,7 +62,7 @@ func Encode(ext string, docs []tv.T) ([]byte, error) {
 	switch ext {
 	case "json", "jsonl":
 		for _, d := range docs {
-			b, err := json.Marshal(tv.ToGo(d))
+			b, err := json.Marshal(wholeFloatsJSON(tv.ToGo(d)))
 			if err != nil {
 				return nil, err
 			}
@@ -79,7 +81,7 @@ func Encode(ext string, docs []tv.T) ([]byte, error) {
 			// yaml.v3 writes the string "<<" unquoted (a merge key for every
 			// reader); quote it so that the file means the intended tree
 			n := &yaml.Node{}
-			if err := n.Encode(v); err != nil {
+			if err := n.Encode(wholeFloatsYAML(v)); err != nil {
 				return nil, err
 			}
 			QuoteMergeStrings(n)
@@ -109,6 +111,60 @@ func Encode(ext string, docs []tv.T) ([]byte, error) {
 		return nil, fmt.Errorf("unknown extension %q", ext)
 	}
 	return buf.Bytes(), nil
+}
+
+// A whole-valued double (3.0) must stay a double in the file: encoding/json and
+// yaml.v3 print it as "3", which every reader takes for an integer.
+func wholeFloatsJSON(v any) any {
+	switch x := v.(type) {
+	case float64:
+		if x == math.Trunc(x) && math.Abs(x) < 1e21 {
+			return json.RawMessage(strconv.FormatFloat(x, 'f', 1, 64))
+		}
+	case map[string]any:
+		m := make(map[string]any, len(x))
+		for k, e := range x {
+			m[k] = wholeFloatsJSON(e)
+		}
+		return m
+	case []any:
+		l := make([]any, len(x))
+		for i, e := range x {
+			l[i] = wholeFloatsJSON(e)
+		}
+		return l
+	}
+	return v
+}
+
+// yamlWhole is a whole-valued double that yaml.v3 must write as "3.0" (it would
+// encode float64(3) as the integer 3).
+type yamlWhole float64
+
+func (w yamlWhole) MarshalYAML() (interface{}, error) {
+	return &yaml.Node{Kind: yaml.ScalarNode, Tag: "!!float", Value: strconv.FormatFloat(float64(w), 'f', 1, 64)}, nil
+}
+
+func wholeFloatsYAML(v any) any {
+	switch x := v.(type) {
+	case float64:
+		if x == math.Trunc(x) && math.Abs(x) < 1e15 {
+			return yamlWhole(x)
+		}
+	case map[string]any:
+		m := make(map[string]any, len(x))
+		for k, e := range x {
+			m[k] = wholeFloatsYAML(e)
+		}
+		return m
+	case []any:
+		l := make([]any, len(x))
+		for i, e := range x {
+			l[i] = wholeFloatsYAML(e)
+		}
+		return l
+	}
+	return v
 }
 
 // QuoteMergeStrings double-quotes every string scalar "<<" of a node tree.
